@@ -520,7 +520,9 @@ def mkHeader (s : Source) (rootLen leavesLen dataLen n : Nat) : Header := {
 /-- `PMTilesWriter::write_to_writer` (writer.rs:51-118); `enc` = gzip (internal compression) -/
 def write (enc : Bytes → Bytes) (s : Source) : Outcome Bytes :=
   let blocks := (s.levels.flatMap grid256).mergeSort (fun a b => blockKey a ≤ blockKey b)
-  if blocks.any (fun b => match Hilbert.coordToTileIdLoop b.xmin b.ymin b.level with | .ok _ => false | _ => true) then .panic
+  -- `ensure!(!pyramid.is_empty())` (since /repo b8770d83; before, `get_geo_bbox().unwrap()` panicked)
+  if s.levels.isEmpty then .err
+  else if blocks.any (fun b => match Hilbert.coordToTileIdLoop b.xmin b.ymin b.level with | .ok _ => false | _ => true) then .panic
   else
     let dataStart := 16384 + s.metaB.length
     match putTiles 0 (blocks.flatMap s.stream) with
